@@ -101,3 +101,25 @@ Proof.
   rewrite E; (destruct (Z.eqb_spec (hprev h head1) 0); simpl negb; cbv iota; simpl hnext; simpl andb; unfold upd;
    repeat match goal with |- context [?a =? ?b] => destruct (Z.eqb_spec a b) end; simpl andb; try congruence; try lia).
 Qed.
+
+(* ---------- concrete runs: the fixed MergeFrom keeps the invariant, the pre-fix code does not ---------- *)
+Definition merged_list (loop : nat -> heap -> Z -> Z -> option heap) (l1 : list Z) (head1 : Z) (l2 : list Z) (head2 : Z)
+  : option (list Z * Z) :=
+  match merge_gen loop 20 (heap_of_lists l1 l2) head1 head2 with
+  | Some (h, hd1, _) => match list_of 20 h hd1 with Some l => Some (l, hd1) | None => None end
+  | None => None
+  end.
+
+(* pool 1 = [1] with head 1, pool 2 = [2;3] with head 3 (buffer 2 is full): the merged list must be 2,1,3 *)
+Example merge_example : merged_list merge_loop [1] 1 [2; 3] 3 = Some ([2; 1; 3], 1).
+Proof. vm_compute. reflexivity. Qed.
+
+(* the pre-fix code loses buffer 2: both inputs are well-formed lists, yet the list denoted by the head afterwards is 1,3 *)
+Lemma merge_prefix_refuted :
+  exists l1 head1 l2 head2 res b,
+    list_of 20 (heap_of_lists l1 l2) head1 = Some l1 /\ list_of 20 (heap_of_lists l1 l2) head2 = Some l2 /\
+    merged_list merge_loop_prefix l1 head1 l2 head2 = Some (res, head1) /\ In b (l1 ++ l2) /\ ~ In b res.
+Proof.
+  exists [1], 1, [2; 3], 3, [1; 3], 2. vm_compute.
+  repeat split; auto. intros [H|[H|[]]]; discriminate H.
+Qed.
